@@ -2243,6 +2243,14 @@ class KmipEngine(object):
         # Locate needs to be able to error out if multiple singleton attributes
         # like 'State' are provided in the same request.
         if payload.attributes:
+            for payload_attribute in payload.attributes:
+                name = payload_attribute.attribute_name.value
+                policy = self._attribute_policy
+                if name in policy.get_all_attribute_names():
+                    if not policy.is_attribute_supported(name):
+                        raise exceptions.InvalidField(
+                            "The {0} attribute is unsupported.".format(name)
+                        )
 
             managed_objects_filtered = []
 
